@@ -35,6 +35,7 @@
 #include "convert.h"
 #include "types.h"
 #include "object.h"
+#include "node.h"
 #include "values.h"
 #include "layout.h"
 #include "vf.h"
@@ -974,6 +975,98 @@ static void do_foreign(int k, ostore *o, vf_rng *r)
 	snap_free(&before);
 }
 
+/* ---------------------------------- identifier / node entry points */
+/*
+ * mpt_object_set_property(obj, mask, identifier, value) and
+ * mpt_object_set_nodes(obj, mask, node list): an entry without value resets
+ * the named property to its default; an entry with a value does what the
+ * direct setter (typed source) / mpt_object_set_string (text source) does on
+ * a twin object.
+ */
+static void do_entry(int k, ostore *o, vf_rng *r)
+{
+	const int mask = MPT_ENUM(TraverseAll) | MPT_ENUM(TraverseChange) | MPT_ENUM(TraverseDefault);
+	const pname *pn = &names[k].n[vf_below(r, (uint32_t) names[k].cnt)];
+	int mode = (int) vf_below(r, 4), t, ret;
+	MPT_STRUCT(identifier) id;
+	owrap w, w2;
+	ostore tw;
+	snap before, after;
+	char ctx[300];
+	hconv h, h2;
+
+	fresh_init();
+	w._obj._vptr = &owrap_vptr; w.k = k; w.o = o;
+	w2._obj._vptr = &owrap_vptr; w2.k = k; w2.o = &tw;
+	snap_take(k, o, &before);
+	t = snap_find(&before, pn->get);
+	VF_CHECK(t >= 0, "model:get:name-missing", "%s: property '%s' is not listed by get", kname[k], pn->get);
+	mpt_identifier_init(&id, sizeof(id));
+	if (!mpt_identifier_set(&id, pn->set, -1)) vf_inconclusive("mpt_identifier_set failed");
+	vf_fp_u64(0xe9 + mode); vf_fp(pn->set, strlen(pn->set));
+	if (mode == 0 || mode == 3) {
+		/* no value: reset */
+		MPT_STRUCT(node) *n = 0;
+		if (mode == 0) {
+			snprintf(ctx, sizeof(ctx), "mpt_object_set_property(%s, \"%s\", no value)", kname[k], pn->set);
+			vf_log("%s", ctx);
+			vf_at("mpt_object_set_property");
+			ret = mpt_object_set_property(&w._obj, mask, &id, 0);
+			vf_count("mpt_object_set_property", 1);
+		} else {
+			snprintf(ctx, sizeof(ctx), "mpt_object_set_nodes(%s, node \"%s\" without value)", kname[k], pn->set);
+			vf_log("%s", ctx);
+			if (!(n = mpt_node_new(strlen(pn->set) + 1)) || !mpt_identifier_set(&n->ident, pn->set, -1)) vf_inconclusive("node creation failed");
+			vf_at("mpt_object_set_nodes");
+			ret = mpt_object_set_nodes(&w._obj, mask, n, 0);
+			vf_count("mpt_object_set_nodes", 1);
+			mpt_node_destroy(n);
+			ret = ret == 1 ? 0 : ret < 0 ? ret : -1000;   /* one entry processed */
+		}
+		vf_log("  -> %d", ret);
+		VF_CHECK(ret == 0, "model:entry:reset-refused", "%s: returned %d", ctx, ret);
+		snap_take(k, o, &after);
+		check_others(k, &before, &after, t, ctx);
+		if (pn->sub) {
+			int off = pn->sub == 2 ? 4 : 0;
+			VF_CHECK(!memcmp(after.p[t].bytes + off, fresh[k].p[t].bytes + off, 4), "model:entry:reset-not-default", "%s: '%s' is %s, a fresh %s has %s", ctx, pn->get, pval_str(&after.p[t]), kname[k], pval_str(&fresh[k].p[t]));
+		}
+		else if (!pval_eq(&after.p[t], &fresh[k].p[t])) vf_fail("model:entry:reset-not-default", "%s: returned %d, '%s' is %s, a fresh %s has %s", ctx, ret, pn->get, pval_str(&after.p[t]), kname[k], pval_str(&fresh[k].p[t]));
+		snap_free(&after);
+		vf_count("monitor:entry-resets-compared", 1);
+	} else {
+		/* with value: same as the direct route on a twin */
+		int r2, cls = (int) vf_below(r, NVCLASS - 1);
+		make_value(&h, cls, 0, 0, r);
+		if (h.vclass == VStr && !h.str) h.str = "";
+		h2 = h;
+		o_init(k, &tw, o);
+		snprintf(ctx, sizeof(ctx), "mpt_object_set_property(%s, \"%s\", %s)", kname[k], pn->set, hconv_str(&h));
+		vf_log("%s", ctx);
+		vf_fp(&h.i, sizeof(h.i)); vf_fp(&h.f, sizeof(h.f)); if (h.str) vf_fp(h.str, strlen(h.str));
+		vf_at("mpt_object_set_property");
+		ret = mpt_object_set_property(&w._obj, mask, &id, &h._conv);
+		vf_count("mpt_object_set_property", 1);
+		if (h.vclass == VStr) { vf_at("mpt_object_set_string"); r2 = mpt_object_set_string(&w2._obj, pn->set, *h.str ? h.str : 0, 0); }
+		else r2 = o_set(k, &tw, pn->set, &h2._conv);
+		vf_log("  -> %d (direct route %d)", ret, r2);
+		VF_CHECK((ret < 0) == (r2 < 0), "model:entry:differs-from-direct-set", "%s: returns %d, the direct route %d", ctx, ret, r2);
+		snap_take(k, o, &after);
+		{
+			snap b;
+			snap_take(k, &tw, &b);
+			for (int i = 0; i < after.n; i++) if (!pval_eq(&after.p[i], &b.p[i])) vf_fail("model:entry:differs-from-direct-set", "%s: '%s' is %s, after the direct route %s", ctx, after.p[i].name, pval_str(&after.p[i]), pval_str(&b.p[i]));
+			snap_free(&b);
+		}
+		if (ret < 0) check_unchanged(k, o, &before, "model:entry:refused-modified", ctx);
+		snap_free(&after);
+		o_fini(k, &tw);
+		vf_count("monitor:entry-values-compared", 1);
+	}
+	mpt_identifier_set(&id, 0, 0);   /* release a long name */
+	snap_free(&before);
+}
+
 /* ---------------------------------------------------------------- get by name */
 static void do_get_names(int k, const ostore *o, vf_rng *r)
 {
@@ -1107,8 +1200,11 @@ static void case_sequence(vf_rng *r)
 			if (l + 30 < sizeof(desc)) l += snprintf(desc + l, sizeof(desc) - l, " %d=clear", w);
 		}
 		else if (op < 16) {
-			if (vf_chance(r, 1, 2)) do_get_names(k, &o[w], r);
-			else { do_foreign(k, &o[w], r); vf_fp_u64(0xf0); }
+			switch (vf_below(r, 4)) {
+			case 0: do_get_names(k, &o[w], r); break;
+			case 1: do_foreign(k, &o[w], r); vf_fp_u64(0xf0); break;
+			default: do_entry(k, &o[w], r);
+			}
 		}
 		else if (op < 17) {
 			/* unknown names, prefixes of setter names */
